@@ -76,7 +76,7 @@ fn main() {
                 abs(v);
             }
         }
-        if matches!(cmd, "distinct" | "artefacts" | "diag" | "together") {
+        if matches!(cmd, "distinct" | "artefacts" | "diag" | "together" | "runvm") {
             pos.iter_mut().for_each(abs);
         }
     }
@@ -116,6 +116,24 @@ fn main() {
             out["digest2"] = json!(b.digest());
             out["texts2"] = json!(b.texts);
         }
+        println!("\nMMVRESULT {out}");
+        return;
+    }
+    if cmd == "runvm" {
+        // C16: the VM outputs of a source file in this fresh process
+        silence_stderr();
+        engine::panics::install_hook();
+        let src = std::fs::read_to_string(&pos[0]).expect("read source");
+        let n: u64 = m.get("n").and_then(|s| s.parse().ok()).unwrap_or(4);
+        let inp = runners::exec::Inputs { kind: m.get("kind").and_then(|s| s.parse().ok()).unwrap_or(1), scale: m.get("scale").and_then(|s| s.parse().ok()).unwrap_or(1.0) };
+        let o = runners::exec::RunOpts { n, sched: false, want_state: false, want_counts: false, want_trace: false };
+        let out = match runners::exec::run_vm(&src, &inp, &o) {
+            runners::exec::Exec::Ran(a) => json!({"ok": a.samples}),
+            runners::exec::Exec::Rejected(d) => json!({"err": format!("rejected: {}", d.first().map(|x| x.message.clone()).unwrap_or_default())}),
+            runners::exec::Exec::NoIo => json!({"err": "no-io"}),
+            runners::exec::Exec::Panic(st, p) => json!({"err": format!("panic {st}: {}", p.signature())}),
+            runners::exec::Exec::Error(st, e) => json!({"err": format!("error {st}: {e}")}),
+        };
         println!("\nMMVRESULT {out}");
         return;
     }
